@@ -346,6 +346,19 @@ func genericStub(fn *ssa.Function) intrFn {
 			}
 			return zeroResult(fn), 1
 		}
+		if p == "fmt" && name == "Sprintf" && len(args) == 2 {
+			// Sprintf(format) without operands and without a verb is the identity
+			if va, ok := args[1].(Slice); ok && va.Len.IsC && va.Len.C == 0 {
+				f := args[0].(Str)
+				noVerb := BoolC(true)
+				for _, b := range f.B {
+					noVerb = And(noVerb, Not(Eq(b, BV(8, '%'))))
+				}
+				if m.decide(noVerb) {
+					return f, 1
+				}
+			}
+		}
 		if p == "fmt" && (name == "Sprintf" || name == "Sprint" || name == "Sprintln") {
 			m.ghostAlloc(BV(64, 256))
 			return Str{B: []*T{BV(8, '?')}}, 1
